@@ -85,6 +85,15 @@ def nataf_stream(res, rng, n):
     for i in range(n):
         d, kinds, p1, p2, dists, R = gen_problem(rng, np, stats)
         case = {'kinds': kinds, 'p1': p1, 'p2': p2, 'corr': R.tolist()}
+        if i % 7 == 0 and d > 1:
+            # objects built with other quadrature settings in between: the documented parameters quadDeg / quadRange belong to the object
+            # that was given them; a transformation built with the defaults afterwards must not depend on them (their own, deliberately
+            # coarse, result is not looked at)
+            try:
+                rpm.NatafTransformation(dists, R.tolist(), quadDeg=rng.choice([99, 99, 31]), quadRange=rng.choice([2.5, 4.0, 8]))
+                res.stat('nataf_other_quadrature_object_in_between')
+            except Exception:  # noqa
+                pass
         try:
             nat = rpm.NatafTransformation(dists, R.tolist())
             z = np.array([rng.uniform(-3, 3) for _ in range(d)])
